@@ -228,7 +228,17 @@ func Utf8ToBig5(utf8 string) (big5 []byte) {
 
 func TrimDBCS(theCstr Cstr) (theBytes []byte) {
 	theBytes = CstrToBytes(theCstr)
-	if theBytes[len(theBytes)-1] >= 0x80 {
+	// only a dangling lead byte is cut: walk the string, a byte >= 0x80
+	// outside a character starts one, the byte after it is its trail byte.
+	isLead := false
+	for _, each := range theBytes {
+		if isLead {
+			isLead = false
+		} else if each >= 0x80 {
+			isLead = true
+		}
+	}
+	if isLead {
 		theBytes[len(theBytes)-1] = 0
 		theBytes = theBytes[:len(theBytes)-1]
 	}
